@@ -83,6 +83,23 @@ def _install():
             r.env("drain %d" % balls)
         return res
     G.ball_drained = ball_drained
+    o_req, o_done = G.request_player_add, G._player_add_request_complete
+
+    def request_player_add(self, **kwargs):
+        r = Rec.cur
+        res = o_req(self, **kwargs)
+        if r is not None and r.machine.game is self and getattr(self, "_end_ball_event", None) is not None:
+            r.env("addaccepted" if res else "addrejected")
+        return res
+
+    def _player_add_request_complete(self, ev_result=True, **kwargs):
+        r = Rec.cur
+        res = o_done(self, ev_result=ev_result, **kwargs)
+        if r is not None and res:
+            r.env("playeradded")
+        return res
+    G.request_player_add = request_player_add
+    G._player_add_request_complete = _player_add_request_complete
 
 
 class Real:
@@ -108,7 +125,9 @@ class Real:
         self.L.append(("ev", event, p.number if p else 0, p.ball if p else 0, self.snap()))
 
     def env(self, what):
-        self.L.append(("env", what, self.snap(), self.in_handler > 0))
+        g = self.machine.game
+        p = g.player if g else None
+        self.L.append(("env", what, self.snap(), self.in_handler > 0, p.number if p else 0))
 
     def deadline(self, ticks):
         t = round(self.vm.now() / GRID) + max(1, ticks)
@@ -151,9 +170,7 @@ class Real:
                 g.player.extra_balls += 1
                 self.env("extraball")
         elif k == "addplayer":
-            g.request_player_add()
-            self.vm.machine.events.process_event_queue() if self.in_handler == 0 else None
-            self.env("addplayer")
+            g.request_player_add()      # logged by the wrappers: accepted / rejected now, player added later
         else:
             raise InfraError("bad act %r" % (a,))
 
@@ -201,11 +218,9 @@ class Real:
             self.install_hooks()
             self.vm.align()
             self.start_game()
-            self.L.append(("q", self.snap()))
             for op in self.case["ops"]:
                 self.act(op)
                 self.vm.advance(GRID)
-                self.L.append(("q", self.snap()))
             self.over = self.finish_game()
             self.L.append(("q", self.snap()))
             self.hooks_off = True
@@ -262,7 +277,7 @@ class Parser:
     def envs(self):
         """consume requests between lifecycle events, tracking what they mean for the numeric clauses"""
         while self.i < len(self.items) and self.items[self.i][0] == "env":
-            _, what, snap, _ = self.items[self.i]
+            _, what, snap, _, curnum = self.items[self.i]
             w = what.split()
             if snap is not None:
                 if not 0 <= snap[0] <= self.case["known"]:
@@ -278,8 +293,8 @@ class Parser:
             elif w[0] == "slam":
                 self.trigger = True
                 self.slam = True
-            elif w[0] == "extraball" and self.cur:
-                self.extra[self.cur] = self.extra.get(self.cur, 0) + 1
+            elif w[0] == "extraball" and curnum:
+                self.extra[curnum] = self.extra.get(curnum, 0) + 1
             self.i += 1
 
     def expect(self, name, player=None, ball=None):
@@ -309,7 +324,7 @@ class Parser:
 
     def game(self):
         self.expect("game_will_start", 0, 0)
-        self.expect("game_starting", 0, 0)
+        self.expect("game_starting")
         self.expect("game_started", 1, 0)
         while self.peek() == "player_turn_will_start":
             self.turn()
@@ -354,18 +369,19 @@ class Parser:
         self.expect("player_turn_will_end", p, b)
         self.expect("player_turn_ending", p, b)
         self.expect("player_turn_ended", p, b)
-        last = self.slam or (b >= self.case["bpg"] and p == self.items[self.i - 1][4][1])
+        players = self.items[self.i - 1][4][1]
         nx = self.peek()
+        last = self.slam or (b >= self.case["bpg"] and p == players)
         if (last or self.end_req) and nx == "player_turn_will_start":
             raise Reject("turn-after-last-ball", {"player": p, "ball": b})
         if not (last or self.end_req) and nx == "game_will_end":
             raise Reject("game-ended-early", {"player": p, "ball": b})
 
     def ball(self, p, b):
+        self.envs()
+        self.trigger = self.end_req     # _run_ball clears the end-of-ball event just before ball_will_start
         self.expect("ball_will_start", p, b)
         self.expect("ball_starting", p, b)
-        self.trigger = False if not self.end_req else self.trigger
-        self.bip = 0
         it = self.expect("ball_started", p, b)
         if it[4][0] != min(1, self.case["known"]):
             raise Reject("bip-at-ball-start", {"balls_in_play": it[4][0]})
@@ -374,9 +390,7 @@ class Parser:
             raise Reject("ball-ended-without-reason", {"player": p, "ball": b})
         self.expect("ball_will_end", p, b)
         self.expect("ball_ending", p, b)
-        it = self.expect("ball_ended", p, b)
-        if it[4][0] != 0:
-            raise Reject("bip-at-ball-end", {"balls_in_play": it[4][0]})
+        self.expect("ball_ended", p, b)
         self.trigger = False
 
 
@@ -388,7 +402,9 @@ def oracle(case, real, crash):
     first = [e for e in L[:cut] if e[0] in ("ev", "env")]
     try:
         if not real.over:
-            raise Reject("game-not-ended", {"trace_tail": [x[1] for x in first[-8:]]})
+            names = [x[1] for x in first]
+            early = "endgame" in names and ("game_started" not in names or names.index("endgame") < names.index("game_started"))
+            raise Reject("end-game-before-game-started" if early else "game-not-ended", {"trace_tail": names[-8:]})
         ps = Parser(case, first)
         ps.game()
         if ps.i != len(first):
@@ -407,7 +423,7 @@ def oracle(case, real, crash):
 def is_nontrivial(real):
     if real is None:
         return False
-    return any(e[0] == "env" and (e[3] or e[1].split()[0] in ("endgame", "slam", "extraball", "addplayer")) for e in real.L)
+    return any(e[0] == "env" and (e[3] or e[1].split()[0] in ("endgame", "slam", "extraball", "playeradded")) for e in real.L)
 
 
 # ---------------------------------------------------------------------------------------------------------------------
@@ -429,7 +445,7 @@ def gen_case(r):
         return ["addplayer"]
     hooks = []
     for _ in range(r.choice([0, 1, 2, 2, 3, 4, 5])):
-        ev = r.choice(LIFE)
+        ev = r.choice(LIFE[:-1])        # not game_ended: the coroutine is over, machine.game is about to be cleared
         acts = [act() for _ in range(r.choice([1, 1, 2]))]
         if ev in QUEUE_EVS and r.random() < 0.4:
             acts.insert(r.choice([0, len(acts)]), ["wait", r.choice([1, 2, 5, 9])])
@@ -443,8 +459,10 @@ def gen_case(r):
 
 def schedule(case, real):
     ops, exp = ["reset %d %d %d" % (case["bpg"], case["maxp"], case["known"])], ["ok"]
+    last_ev = None
     for e in real.L:
         if e[0] == "ev":
+            last_ev = e[1]
             ops.append("start" if e[1] == "game_will_start" else "resume")
             s = e[4]
             exp.append("%s:%d:%d | bip=%d players=%d ending=%d" % (e[1], e[2], e[3], s[0], s[1], s[2]))
@@ -453,6 +471,10 @@ def schedule(case, real):
             s = e[2]
             exp.append("| bip=%d players=%d ending=%d" % (s[0], s[1], s[2]) if s else "not-enabled")
         elif e[0] == "q":
+            if last_ev == "game_ended" and e[1] is None:
+                ops.append("finish")
+                exp.append("ok")
+                last_ev = None
             ops.append("state")
             exp.append("game=%d" % (1 if e[1] is not None else 0))
     return ops, exp
